@@ -868,7 +868,7 @@ def run():
                "out of range, names empty/ASCII/macroman/Cyrillic/CJK/astral/surrogates/255/256 chars) followed by save+open, then "
                "random histories of 2-3 edits (thorough: up to 12) with save+open in between; non-trivial = distinct (subject, "
                "history) whose last state differs from the initial one")
-    ok = ck.coq_build(["theories/Attrs/Corr.v", "theories/Attrs/Proofs.v", "theories/Properties/C16.v"])
+    ok = ck.coq_build(["theories/Attrs/Corr.v", "theories/Attrs/Proofs.v", "theories/Attrs/Persist.v", "theories/Properties/C16.v"])
     if ok:
         ck.collect_theorems("C16.v")
     cfg = detect_cfg()
